@@ -4,6 +4,6 @@
 # the run.  Results of such a run are not evidence (they are not run against /repo itself).
 cd "$(dirname "$0")/.." || exit 2
 repo="${VP_RUN_REPO:-/repo}"
-sed -i "s|path = \"/repo\"|path = \"$repo\"|" harness/Cargo.toml
+sed -i "s|path = \"/repo\"|path = \"$repo\"|" harness/Cargo.toml noserde/Cargo.toml
 echo "isolated run against $repo ($(git -C "$repo" log --format=%h -1 2>/dev/null))"
 exec "$@"
